@@ -21,14 +21,21 @@ import (
 type c02Replay struct {
 	Kind string `json:"kind"` // frame | getter
 	Hex  string `json:"hex"`
+	Tail string `json:"tail,omitempty"` // frame: bytes in the spare capacity of the receive buffer
 	Type string `json:"type,omitempty"`
 }
 
 // c02Frame compares Session.Parse with the reference decoder on one frame.
 func c02Frame(c *core.Ctx, st *c01State, class string, f []byte) {
+	in := make([]byte, len(f))
+	copy(in, f)
+	c02FrameIn(c, st, class, in, nil)
+}
+
+// c02FrameIn: in is the receive buffer (its spare capacity holds tail, the bytes that followed in a longer frame).
+func c02FrameIn(c *core.Ctx, st *c01State, class string, in []byte, tail []byte) {
 	c.Count("evaluations", 1)
 	c.Count("frames", 1)
-	in := append([]byte(nil), f...)
 	want := refnet.Classify(in)
 	var frame packet.Frame
 	var err error
@@ -38,7 +45,7 @@ func c02Frame(c *core.Ctx, st *c01State, class string, f []byte) {
 		frame, err = st.session().Parse(in)
 		return nil
 	}()
-	rp := c02Replay{Kind: "frame", Hex: hex.EncodeToString(in)}
+	rp := c02Replay{Kind: "frame", Hex: hex.EncodeToString(in), Tail: hex.EncodeToString(tail)}
 	if perr != nil {
 		st.reset()
 		c.Violate("decode-panic|"+class, fmt.Sprintf("Parse panics: %v frame=%x", perr, trunc(in, 64)), rp)
@@ -211,7 +218,7 @@ func short(v any) any {
 
 func c02Run(c *core.Ctx, args []string) {
 	c.Res.Level = "exploration"
-	c.Res.Rule = "(1) structural frames over the whole classification table: EtherType alphabet x source MAC class; IPv4 and IPv6 x all 256 protocol numbers x MAC class; all ordered pairs of the 19 port alphabet in both families; all 16 IPv4 IHL values x TotalLen boundary set; all 16 TCP data offsets x segment lengths; every truncation and 1..46 bytes of trailing padding of one frame per class; (2) getter sweep: for each view every 16-bit window takes all 65536 values (quick: windows of the first 24 bytes; thorough: every window) with two backgrounds. Oracle: independent table driven decoder refnet. distinct non-trivial = frames the reference accepts / valid view instances"
+	c.Res.Rule = "(1) structural frames over the whole classification table: EtherType alphabet x source MAC class; IPv4 and IPv6 x all 256 protocol numbers x MAC class; all ordered pairs of the 19 port alphabet in both families; all 16 IPv4 IHL values x TotalLen boundary set; all 16 TCP data offsets x segment lengths; every truncation (with exact capacity, and at the start of a read buffer that still holds the rest of the frame) and 1..46 bytes of trailing padding of one frame per class; (2) getter sweep: for each view every 16-bit window takes all 65536 values (quick: windows of the first 24 bytes; thorough: every window) with two backgrounds. Oracle: independent table driven decoder refnet. distinct non-trivial = frames the reference accepts / valid view instances"
 	c.Res.Assumptions = []string{"where Ethernet padding makes the bounded and unbounded reading of a transport header disagree the case is unconstrained (either verdict accepted)", "802.1Q/802.1ad frames are expected as PayloadEther with the payload after the tags (no decapsulation demanded)", "ICMP4Redirect (not an RFC 792 redirect layout) and LLDP TLV accessors are outside the getter sweep"}
 	st := &c01State{}
 	unit := 0
@@ -334,6 +341,10 @@ func c02Run(c *core.Ctx, args []string) {
 		}
 		for n := 0; n <= len(t.Frame); n++ {
 			c02Frame(c, st, "trunc:"+t.Name, t.Frame[:n])
+			if n < len(t.Frame) { // the same bytes at the start of a reused read buffer that still holds the rest
+				whole := append([]byte(nil), t.Frame...)
+				c02FrameIn(c, st, "trunc+tail:"+t.Name, whole[:n], t.Frame[n:])
+			}
 		}
 		for padn := 1; padn <= 46; padn++ {
 			c02Frame(c, st, "pad:"+t.Name, append(append([]byte{}, t.Frame...), make([]byte, padn)...))
@@ -389,7 +400,12 @@ func c02Replayer(data []byte) string {
 	c := core.NewCtx("C02", "quick", "replay", 0, 1, "")
 	switch r.Kind {
 	case "frame":
-		c02Frame(c, &c01State{}, "replay", in)
+		if tail, _ := hex.DecodeString(r.Tail); len(tail) > 0 {
+			whole := append(append([]byte(nil), in...), tail...)
+			c02FrameIn(c, &c01State{}, "replay", whole[:len(in)], tail)
+		} else {
+			c02Frame(c, &c01State{}, "replay", in)
+		}
 	case "getter":
 		for _, spec := range viewSpecs() {
 			if spec.name == r.Type {
